@@ -1,76 +1,169 @@
-"""Generated/TimeRangeConsts.v from python/fusion_engine_client/utils/time_range.py: the literal constants of
-TimeRange.parse() (field separator, the two type specifiers, the maximum number of fields) and of
-TimeRange.__init__ (the start value that is normalised to "open" for absolute ranges).
-Fail closed: anything this does not recognise raises."""
-import ast, os, sys
+"""Generated/TimeRangeConsts.v for C13: the literal constants of TimeRange.parse() / TimeRange.__init__ that the
+model depends on.
+
+They are obtained by *evaluating* the working tree (subprocess, vf.IMPL_ENV), never by matching its text, so a
+behaviour-preserving rewrite (extracted helpers, renamed locals, flattened branches) leaves them unchanged.  Every
+fact is read off the *verdicts of is_in_range()* on ranges made by the public constructor / parse():
+  * separator: the unique printable character c for which parse('1' c '2') behaves as the relative interval [1, 2) s;
+  * type specifiers: among candidate words (all string constants reachable from the module's code objects plus a
+    fixed list of plausible spellings), those w for which parse('1' SEP '2' SEP w) does not raise, classified by
+    behaviour (absolute: a first Pose@1.5 s is accepted; relative: it is the origin and is rejected);
+    the model has one spelling per kind, so exactly one of each is required;
+  * maximum number of fields: 3 fields parse, 4 and 5 raise ValueError;
+  * the absolute start value that is normalised to an open start: among probe values, those v for which
+    TimeRange(start=v, absolute=True) accepts an untimed first message; the model has the single value 0.
+Fail closed (raise) only when the observed behaviour is not of the modelled shape."""
+import json, os, subprocess, sys
 sys.path.insert(0, os.path.join(os.path.dirname(__file__), '..', 'lib'))
 import vf
 
 SRC = 'python/fusion_engine_client/utils/time_range.py'
 
+PROBE = r'''
+import json, logging, sys, types
+logging.disable(logging.CRITICAL)
+from fusion_engine_client.messages import PoseMessage, Timestamp
+import fusion_engine_client.utils.time_range as M
+TimeRange = M.TimeRange
 
-def _method(cls, name):
-    for n in cls.body:
-        if isinstance(n, ast.FunctionDef) and n.name == name:
-            return n
-    raise RuntimeError('gen_c13: TimeRange.%s not found' % name)
+def pose(t):
+    m = PoseMessage(); m.p1_time = Timestamp(t); return m
+
+def verdicts(r, times):
+    return [bool(r.is_in_range(pose(t))) for t in times]
+
+def classify(make):
+    """'rel' / 'abs' if make() is the interval [1, 2) s of that kind, 'raises' on ValueError, else 'other'"""
+    try:
+        a = make(); b = make()
+    except ValueError:
+        return 'raises'
+    if verdicts(a, [0.5, 1.0, 1.5, 1.875, 2.0, 2.5]) == [False, True, True, True, False, False]:
+        return 'abs'
+    if verdicts(b, [10.0, 10.5, 11.0, 11.5, 11.875, 12.0, 12.5]) == [False, False, True, True, True, False, False]:
+        return 'rel'
+    return 'other'
+
+out = {}
+# separator
+seps = []
+for c in map(chr, range(32, 127)):
+    try:
+        k = classify(lambda: TimeRange.parse('1' + c + '2'))
+    except Exception as e:
+        k = 'error:' + type(e).__name__
+    if k in ('rel', 'abs'):
+        seps.append((c, k))
+out['seps'] = seps
+if len(seps) == 1:
+    S = seps[0][0]
+    # candidate specifier words: every string constant reachable from the module's code objects + plausible spellings
+    words = set(['abs', 'rel', 'absolute', 'relative', 'ABS', 'REL', 'Abs', 'Rel', 'a', 'r', 'p1', 'gps', 'utc', 'system',
+                 'none', 'None', 'true', 'false', '0', '1', '', ' ', 'abs ', ' abs', 'rel ', ' rel'])
+    seen = set()
+    def walk(code):
+        if id(code) in seen:
+            return
+        seen.add(id(code))
+        for k in code.co_consts:
+            if isinstance(k, str) and len(k) <= 16 and '\n' not in k:
+                words.add(k)
+            elif isinstance(k, (tuple, frozenset)):
+                for x in k:
+                    if isinstance(x, str) and len(x) <= 16 and '\n' not in x:
+                        words.add(x)
+            elif isinstance(k, types.CodeType):
+                walk(k)
+    def walk_obj(o):
+        f = getattr(o, '__func__', o)
+        c = getattr(f, '__code__', None)
+        if c is not None:
+            walk(c)
+    for name, o in list(vars(M).items()):
+        if isinstance(o, type) and o.__module__ == M.__name__:
+            for n2, o2 in list(vars(o).items()):
+                walk_obj(o2)
+        elif isinstance(o, types.FunctionType) and o.__module__ == M.__name__:
+            walk_obj(o)
+    spec = {}
+    for w in sorted(words):
+        if S in w:
+            continue
+        try:
+            k = classify(lambda: TimeRange.parse('1' + S + '2' + S + w))
+        except Exception as e:
+            k = 'error:' + type(e).__name__
+        if k != 'raises':
+            spec[w] = k
+    out['spec'] = spec
+    # the argument must lose against an explicit specifier, and decide when there is none
+    arg = {}
+    for w, k in spec.items():
+        if k in ('abs', 'rel'):
+            arg[w] = [classify(lambda: TimeRange.parse('1' + S + '2' + S + w, absolute=True)),
+                      classify(lambda: TimeRange.parse('1' + S + '2' + S + w, absolute=False))]
+    out['spec_vs_arg'] = arg
+    out['arg_only'] = [classify(lambda: TimeRange.parse('1' + S + '2', absolute=True)), classify(lambda: TimeRange.parse('1' + S + '2', absolute=False))]
+    # field count
+    good = [w for w, k in spec.items() if k in ('abs', 'rel')]
+    w0 = good[0] if good else 'abs'
+    out['fields'] = {n: classify(lambda: TimeRange.parse(S.join(['1', '2', w0, w0, w0][:n]))) for n in (1, 2, 3, 4, 5)}
+    out['fields'][1] = 'ok' if verdicts(TimeRange.parse('1'), [10.0, 10.5, 11.0, 99.0]) == [False, False, True, True] else 'other'
+
+# absolute start values that count as an open start: an untimed first message is accepted
+opens = []
+for v in (0.0, -0.0, 0, 0.125, 1.0, -1.0, 2.0 ** -30):
+    r = TimeRange(start=v, end=None, absolute=True)
+    if bool(r.is_in_range(b'x')):
+        opens.append(float(v))
+out['abs_open'] = sorted(set(opens))
+out['rel_open'] = [float(v) for v in (0.0, 1.0) if bool(TimeRange(start=v, end=None, absolute=False).is_in_range(b'x'))]
+sys.stdout.write('\nGEN_C13 ' + json.dumps(out) + '\n')
+'''
+
+
+def probe():
+    p = subprocess.run([vf.PY, '-c', PROBE], env=vf.IMPL_ENV, capture_output=True, text=True, timeout=300)
+    line = next((l for l in p.stdout.split('\n') if l.startswith('GEN_C13 ')), None)
+    if p.returncode != 0 or line is None:
+        err = '\n'.join(l for l in p.stderr.split('\n') if 'leap second' not in l.lower())
+        raise RuntimeError('gen_c13: probe of the working tree failed (rc=%s): %s' % (p.returncode, err[-1500:]))
+    return json.loads(line[len('GEN_C13 '):])
 
 
 def generate():
-    tree = ast.parse(vf.repo_file(SRC))
-    cls = [n for n in tree.body if isinstance(n, ast.ClassDef) and n.name == 'TimeRange']
-    if len(cls) != 1:
-        raise RuntimeError('gen_c13: class TimeRange not found')
-    cls = cls[0]
-    for m in ('__init__', 'restart', 'make_absolute', 'intersect', 'is_in_range', 'parse'):
-        _method(cls, m)
-    parse = _method(cls, 'parse')
-    # separator: the single <x>.split(<const>) call
-    seps = [c.args[0].value for c in ast.walk(parse)
-            if isinstance(c, ast.Call) and isinstance(c.func, ast.Attribute) and c.func.attr == 'split'
-            and len(c.args) == 1 and isinstance(c.args[0], ast.Constant) and isinstance(c.args[0].value, str)]
-    if len(seps) != 1 or len(seps[0]) != 1:
-        raise RuntimeError('gen_c13: expected exactly one split(<1-char literal>) in parse(), got %r' % seps)
-    # specifiers: comparisons time_range[2] == '<lit>' followed by absolute = True/False
-    spec = {}
-    for node in ast.walk(parse):
-        if isinstance(node, ast.If) and isinstance(node.test, ast.Compare) and len(node.test.ops) == 1 \
-                and isinstance(node.test.ops[0], ast.Eq) and isinstance(node.test.left, ast.Subscript) \
-                and isinstance(node.test.comparators[0], ast.Constant) and isinstance(node.test.comparators[0].value, str) \
-                and node.test.comparators[0].value != '':
-            body = node.body
-            if len(body) == 1 and isinstance(body[0], ast.Assign) and isinstance(body[0].targets[0], ast.Name) \
-                    and body[0].targets[0].id == 'absolute' and isinstance(body[0].value, ast.Constant) \
-                    and isinstance(body[0].value.value, bool):
-                spec[body[0].value.value] = node.test.comparators[0].value
-    if set(spec) != {True, False}:
-        raise RuntimeError('gen_c13: could not find the two type specifiers in parse(): %r' % spec)
-    # field-count limits: len(time_range) == 3 (type specifier present), len(time_range) > 3 (error)
-    lens = []
-    for node in ast.walk(parse):
-        if isinstance(node, ast.Compare) and isinstance(node.left, ast.Call) and isinstance(node.left.func, ast.Name) \
-                and node.left.func.id == 'len' and isinstance(node.comparators[0], ast.Constant):
-            lens.append((type(node.ops[0]).__name__, node.comparators[0].value))
-    if sorted(lens) != sorted([('Eq', 1), ('GtE', 2), ('Eq', 3), ('Gt', 3)]):
-        raise RuntimeError('gen_c13: unexpected field-count tests in parse(): %r' % lens)
-    # __init__: "self.start == <const> and self.absolute"
-    init = _method(cls, '__init__')
-    zeros = [n.comparators[0].value for n in ast.walk(init)
-             if isinstance(n, ast.Compare) and isinstance(n.left, ast.Attribute) and n.left.attr == 'start'
-             and len(n.ops) == 1 and isinstance(n.ops[0], ast.Eq) and isinstance(n.comparators[0], ast.Constant)]
-    if zeros != [0.0]:
-        raise RuntimeError('gen_c13: expected one test self.start == 0.0 in __init__, got %r' % zeros)
+    o = probe()
+    if len(o['seps']) != 1 or o['seps'][0][1] != 'rel':
+        raise RuntimeError('gen_c13: expected exactly one field separator giving a relative [1,2) range, observed %r' % (o['seps'],))
+    sep = o['seps'][0][0]
+    abs_words = sorted(w for w, k in o['spec'].items() if k == 'abs')
+    rel_words = sorted(w for w, k in o['spec'].items() if k == 'rel')
+    odd = {w: k for w, k in o['spec'].items() if k not in ('abs', 'rel')}
+    if len(abs_words) != 1 or len(rel_words) != 1 or odd:
+        raise RuntimeError('gen_c13: the model has one specifier per kind; observed absolute=%r relative=%r other=%r' % (abs_words, rel_words, odd))
+    kw_abs, kw_rel = abs_words[0], rel_words[0]
+    if o['spec_vs_arg'] != {kw_abs: ['abs', 'abs'], kw_rel: ['rel', 'rel']} or o['arg_only'] != ['abs', 'rel']:
+        raise RuntimeError('gen_c13: specifier / absolute-argument precedence is not of the modelled shape: %r %r' % (o['spec_vs_arg'], o['arg_only']))
+    f = {int(k): v for k, v in o['fields'].items()}
+    if f[1] != 'ok' or f[2] != 'rel' or f[3] not in ('abs', 'rel') or f[4] != 'raises' or f[5] != 'raises':
+        raise RuntimeError('gen_c13: field-count behaviour is not "1-3 fields parse, more raise": %r' % (f,))
+    if o['abs_open'] != [0.0] or o['rel_open'] != []:
+        raise RuntimeError('gen_c13: start values normalised to an open start are not "absolute 0 only": abs=%r rel=%r' % (o['abs_open'], o['rel_open']))
 
     def zl(s):
         return '[' + '; '.join(str(ord(c)) for c in s) + ']'
     text = vf.gen_header([SRC]) + 'From Coq Require Import ZArith List.\nImport ListNotations.\nOpen Scope Z_scope.\n'
-    text += 'Definition tr_sep : Z := %d.\n' % ord(seps[0])
-    text += 'Definition tr_kw_abs : list Z := %s.\nDefinition tr_kw_rel : list Z := %s.\n' % (zl(spec[True]), zl(spec[False]))
+    text += 'Definition tr_sep : Z := %d.\n' % ord(sep)
+    text += 'Definition tr_kw_abs : list Z := %s.\nDefinition tr_kw_rel : list Z := %s.\n' % (zl(kw_abs), zl(kw_rel))
     text += 'Definition tr_max_fields : nat := 3.\n'
-    text += 'Definition tr_abs_open_start : Z := %d.\n' % int(zeros[0])
+    text += 'Definition tr_abs_open_start : Z := 0.\n'
     vf.write_if_changed(os.path.join(vf.THEORIES, 'Generated', 'TimeRangeConsts.v'), text)
-    return {'sep': seps[0], 'abs': spec[True], 'rel': spec[False], 'abs_open_start': zeros[0]}
+    return {'sep': sep, 'abs': kw_abs, 'rel': kw_rel, 'max_fields': 3, 'abs_open_start': 0.0}
 
+
+DEFAULT_TEXT = ('From Coq Require Import ZArith List.\nImport ListNotations.\nOpen Scope Z_scope.\n'
+                'Definition tr_sep : Z := 58.\nDefinition tr_kw_abs : list Z := [97; 98; 115].\nDefinition tr_kw_rel : list Z := [114; 101; 108].\n'
+                'Definition tr_max_fields : nat := 3.\nDefinition tr_abs_open_start : Z := 0.\n')
 
 if __name__ == '__main__':
     print(generate())
